@@ -25,6 +25,7 @@ def lowerB (x : Nat) : Nat := latin1Lower.getD x x
 def lower (b : Bytes) : Bytes := b.map lowerB
 def isStrSpace (x : Nat) : Bool := strSpace.contains x
 def isBytesSpace (x : Nat) : Bool := bytesSpace.contains x
+def isIntSpace (x : Nat) : Bool := intSpace.contains x
 def isHexDigit (x : Nat) : Bool := hexDigits.contains x
 
 def lstrip (p : Nat → Bool) : Bytes → Bytes
@@ -87,7 +88,7 @@ def decBody : Bytes → Bool → Bytes → Option Bytes
 /-- `int(s)` for a str made of latin-1 code points: surrounding white space, sign, digits, `_` between digits;
 `none` is ValueError (also above the interpreter's digit limit) -/
 def pyInt (s : Bytes) : Option Int :=
-  let t := strip isStrSpace s
+  let t := strip isIntSpace s
   let (neg, rest) := match t with
     | 45 :: r => (true, r)
     | 43 :: r => (false, r)
